@@ -96,6 +96,11 @@ func (c *conn) closeNotify() <-chan struct{} {
 	defer c.mu.Unlock()
 	if c.closeNotifyc == nil {
 		c.closeNotifyc = make(chan struct{})
+		if c.clientGone {
+			// The connection is gone already.
+			close(c.closeNotifyc)
+			return c.closeNotifyc
+		}
 
 		if msc, isMulti := c.rwc.(MultistreamConn); isMulti {
 			// MultistreamConn provides it's own error handler
@@ -130,10 +135,22 @@ func (c *conn) closeNotify() <-chan struct{} {
 func (c *conn) notifyClientGone() {
 	c.mu.Lock()
 	defer c.mu.Unlock()
-	if c.closeNotifyc != nil && !c.clientGone {
-		close(c.closeNotifyc) // unblock readers
+	if !c.clientGone {
 		c.clientGone = true
+		if c.closeNotifyc != nil {
+			close(c.closeNotifyc) // unblock readers
+		}
 	}
+}
+
+// stopCloseNotifier unblocks the closeNotifier pipe copy routine, which
+// otherwise waits forever for the reader that just went away.
+func (c *conn) stopCloseNotifier() {
+	c.sr.Lock()
+	if pr, ok := c.sr.r.(*io.PipeReader); ok {
+		pr.Close()
+	}
+	c.sr.Unlock()
 }
 
 // Create new connection from rwc.
@@ -184,6 +201,10 @@ func (c *conn) serve() {
 				c.rwc.RemoteAddr().String(), err, buf)
 		}
 		c.rwc.Close()
+		// The connection is terminated: tell CloseNotify users, whether
+		// or not the notifier routine was ever started.
+		c.stopCloseNotifier()
+		c.notifyClientGone()
 	}()
 	if tlsConn, ok := c.rwc.(*tls.Conn); ok {
 		if err := tlsConn.Handshake(); err != nil {
